@@ -40,6 +40,7 @@ from ..paths import index_of
 from ..paths import R
 from ..paths import traces_of
 from ..selftest import Mutant
+from .C08 import waiter_replies
 from ._helpers_B import ceval
 from ._helpers_B import consistent
 from ._helpers_B import feasible
@@ -476,17 +477,12 @@ def _r15_4(ctx):
     ctx.require(n > 0 or bad > 0, "HttpClient._handle_event: no path with a connection error")
     ctx.check(bad == 0, "R15.4", (HT, "HttpClient._handle_event", hc), "err -> RegisterHttpConnection(server, err), no protocol layer",
               f"{bad} path(s) build a client protocol layer without having established `not err`, or do not register the connection with the error", desc="HttpClient: error -> RegisterHttpConnection(server, err) only")
-    rc = ctx.func(HT, "HttpLayer.register_connection")
-    res, eng = traces_of(rc, FlowSpec(keep=lambda ev: ev[0] in ("cond", "assignx") and (ev[0] == "cond" and ev[1] == "command.err" or ev[0] == "assignx" and ev[1] == "reply"), assign_nodes=True, implicit_raises=False))
-    n = bad = 0
-    for t, how, st in res:
-        first = next((e for e in t if e[0] == "cond"), None)
-        if first is None or not first[2]:
-            continue
-        n += 1
-        vals = [norm(e[2]) for e in t if e[0] == "assignx"]
-        bad += vals != ["(None, command.err)"]
-    ctx.require(n > 0, "HttpLayer.register_connection: no error path")
+    # register_connection in the world `command.err is set`: what every waiting stream is answered with (the reply is followed by
+    # value through temporaries, conditional expressions and extracted helpers - C08's analysis of the same function)
+    rc, cmdp, paths = waiter_replies(ctx, True)
+    replies = [e[2] for toks in paths for e in toks if e[0] == "complete"]
+    ctx.require(replies, "HttpLayer.register_connection: no error path that answers a waiting stream")
+    bad = sum(1 for r in replies if r != ("reply", "None", f"{cmdp}.err"))
     ctx.check(bad == 0, "R15.4", (HT, "HttpLayer.register_connection", rc), "command.err -> reply = (None, command.err)", f"{bad} error path(s) reply with a usable connection", desc="register_connection: error -> (None, err)")
     # make_server_connection + callers
     msc = ctx.func(HT, "HttpStream.make_server_connection")
@@ -562,6 +558,7 @@ MUTANTS = [
     Mutant("tls-failed-hook-dropped", PT, "        else:\n            yield TlsFailedServerHook(TlsData(self.conn, self.context, self.tls))\n", "        else:\n            pass\n", "R15.4"),
     Mutant("conn-error-not-set", PT, "        self.conn.error = err\n        if self.conn == self.context.client:\n            yield TlsFailedClientHook", "        if self.conn == self.context.client:\n            yield TlsFailedClientHook", "R15.4"),
     Mutant("handshake-finished-swallows-error", TU, "                events.OpenConnectionCompleted(self.command_to_reply_to, err)\n", "                events.OpenConnectionCompleted(self.command_to_reply_to, None)\n", "R15.4"),
+    Mutant("register-error-replies-with-connection", HT, "            reply = (None, command.err)\n", "            reply = (command.connection, None)\n", "R15.4"),
     Mutant("httpclient-builds-layer-on-error", HT, "            err = yield commands.OpenConnection(self.context.server)\n        if not err:\n            if is_h3_alpn", "            err = yield commands.OpenConnection(self.context.server)\n        if True:\n            if is_h3_alpn", "R15.4"),
     Mutant("consume-body-sends-after-failed-connect", HT, "                ok = yield from self.make_server_connection()\n                if not ok:\n                    return\n\n                content = self.flow.request.raw_content",
            "                ok = yield from self.make_server_connection()\n\n                content = self.flow.request.raw_content", "R15.4"),
